@@ -31,23 +31,30 @@ ASSUMPTIONS = [
     'REQUEST_METHOD != HEAD (WebOb then sends an empty body); Location without CR/LF (WebOb rejects it)',
 ]
 TRUSTED = [
-    'hand-written model coq/Model/C19.v of HTTPException.__init__/prepare/__call__, _no_escape (shape-pinned, choices regenerated)',
+    'primitive table of harness/c19/translate.py (docstring; ~40 entries: Python/WebOb/Pyramid leaf semantics -> coq/Model/C19_base.v) and the translator itself (fail-closed, its output is type-checked by Coq and exercised by the correspondence run)',
+    'hand-written reference model coq/Model/C19.v (what the theorems are about); _no_escape, HTTPForbidden.__init__, HTTPException.__str__, default_exceptionresponse_view and the other raisers stay shape-pinned',
     'string.Template.substitute, webob.html_escape (html.escape + xmlcharrefreplace), json.dumps(ensure_ascii), str.encode("utf-8"): modelled, validated by correspondence (code-point sweeps), not verified',
     'WebOb Response (status, content_type/charset setters, header list), Accept negotiation: oracle / validated by correspondence',
 ]
-TECHNIQUE = ('Coq proof on a hand-written Gallina model of prepare() whose branch choices, argument table, Template literals '
-             'and class table are regenerated from the source + extracted-model differential correspondence')
-LEVEL_TEXT = ('Machine-checked theorems for all texts, classes of the regenerated table and negotiation outcomes: Template '
-              'substitution is single pass (placeholders inside supplied text are never expanded); html_escape output contains '
-              'no < > " \' and every & starts a character reference; the markup characters of an HTML error page do not depend '
-              'on any supplied text; the explicit shape of the default page (incl. the 404 page echoing the request path); the '
-              'JSON body reads back (reference RFC 8259 reader) to message/code/title with the text verbatim; the content type '
-              'is that of the first acceptable offer, else text/plain. The model is tied to the code by shape pins, regenerated '
-              'choices/literals and a differential run of the extracted model against the real exceptions and Router.')
+TECHNIQUE = ('Coq proof about a hand-written Gallina reference model; the control flow of HTTPException.__init__, '
+             '_HTTPMove.__init__, _json_formatter, prepare and __call__ is REGENERATED from the source on every run by a '
+             'fail-closed ast -> Gallina translator (harness/c19/translate.py) and proved equal to the reference model; '
+             'extracted regenerated program vs implementation differential run')
+LEVEL_TEXT = ('Machine-checked, for all texts, classes of the regenerated table, negotiation outcomes and call sequences: the '
+              'program regenerated from the source (constructors, prepare, __call__, threaded through any sequence of calls on '
+              'one object) equals the reference model; Template substitution is single pass (placeholders inside supplied text '
+              'are never expanded; one-frame statements for detail, explanation, comment, location, header and environ values); '
+              'html_escape output has no < > " \' and every & starts a reference; the markup of an HTML error page does not '
+              'depend on supplied text; explicit shapes of the default, redirect and 405 pages (incl. the 404 page echoing the '
+              'request path); the JSON body reads back (reference RFC 8259 reader) with the text verbatim; content type = first '
+              'acceptable offer else text/plain; every response in a history carries the content type of the form its body was '
+              'rendered in. Tie to the code: the translator (control flow mechanical, leaves through a primitive table), '
+              'regenerated literals/class table, shape pins only for untranslated helpers, and a differential run of the '
+              'extracted regenerated program against the real exceptions, Router and static/secured/predicated views.')
 LEVEL_NOTE = ('Outside the property by WebOb design (documented behaviour of webob.html_escape): a detail/comment/value '
               'object with an __html__ method is inserted as its __html__() result, unescaped -- such objects are markup '
               'supplied by the developer, not request-derived text, and are neither modelled nor generated. '
-              'Trusted: Coq kernel; hand-written model (validated by correspondence, shape-pinned); Python harness; '
+              'Trusted: Coq kernel; the translator\'s primitive table; Python harness; '
               'string.Template/html.escape/json.dumps/UTF-8/WebOb modelled or taken as oracle and validated, not verified.')
 
 _cache = {}
